@@ -66,14 +66,19 @@ pub struct RunResult {
     pub stderr: Vec<u8>,
     pub timed_out: bool,
     pub elapsed_ms: u64,
+    /// CPU time of the process tree (the child and the children it waited for)
+    pub cpu_ms: u64,
 }
 
-/// Runs a command with a wall-clock limit, capturing stdout / stderr.
+/// Runs a command with a time limit, capturing stdout / stderr.  The limit is a wall-clock limit for a child that
+/// is not computing (a hang), and a CPU-time limit for one that is: on a busy machine a computing child is given up
+/// to eight times the limit in wall-clock time before it is declared hung.
 pub fn run_limited(cmd: &mut Command, limit: Duration) -> RunResult {
     let t0 = Instant::now();
+    let cpu0 = crate::util::children_cpu_ms();
     let mut child = match cmd.stdin(Stdio::null()).stdout(Stdio::piped()).stderr(Stdio::piped()).spawn() {
         Ok(c) => c,
-        Err(_) => return RunResult { status: None, stdout: vec![], stderr: vec![], timed_out: false, elapsed_ms: 0 },
+        Err(_) => return RunResult { status: None, stdout: vec![], stderr: vec![], timed_out: false, elapsed_ms: 0, cpu_ms: 0 },
     };
     let mut so = child.stdout.take().unwrap();
     let mut se = child.stderr.take().unwrap();
@@ -92,7 +97,11 @@ pub fn run_limited(cmd: &mut Command, limit: Duration) -> RunResult {
         match child.try_wait() {
             Ok(Some(s)) => break Some(s),
             Ok(None) => {
-                if t0.elapsed() > limit {
+                if t0.elapsed() > limit
+                    && (t0.elapsed() > limit * 8
+                        || crate::util::proc_tree_cpu_ms(child.id()).map_or(true, |c| c as u128 >= limit.as_millis() || (c as u128) * 4 < t0.elapsed().as_millis() / 8))
+                {
+                    // over the limit in CPU time, or idle (less than 1/32 of the wall-clock time spent computing): hung
                     timed_out = true;
                     let _ = child.kill();
                     break child.wait().ok();
@@ -105,7 +114,8 @@ pub fn run_limited(cmd: &mut Command, limit: Duration) -> RunResult {
     // the pipes may be held open by orphaned grandchildren: do not wait for them forever
     let stdout = t1.join().unwrap_or_default();
     let stderr = t2.join().unwrap_or_default();
-    RunResult { status, stdout, stderr, timed_out, elapsed_ms: t0.elapsed().as_millis() as u64 }
+    let cpu_ms = crate::util::children_cpu_ms().saturating_sub(cpu0);
+    RunResult { status, stdout, stderr, timed_out, elapsed_ms: t0.elapsed().as_millis() as u64, cpu_ms }
 }
 
 pub fn encode_args(args: &[(String, String)]) -> Vec<u8> {
